@@ -648,3 +648,24 @@ impl Frame {
         }
     }
 }
+
+#[cfg(jxl_oxide_verif)]
+impl Frame {
+    /// Verification hook (H2): a frame that carries only its headers (no TOC entries, no group
+    /// data), so that header-driven region arithmetic taking `&Frame` can be called directly.
+    pub fn verif_from_headers(image_header: Arc<ImageHeader>, header: FrameHeader) -> Self {
+        let mut pass_shifts = BTreeMap::new();
+        pass_shifts.insert(header.passes.num_passes.saturating_sub(1), (0i32, 3i32));
+        Self {
+            pool: JxlThreadPool::none(),
+            tracker: None,
+            image_header,
+            header,
+            toc: Toc::verif_empty(),
+            data: Vec::new(),
+            all_group_offsets: AllGroupOffsets::default(),
+            reading_data_index: 0,
+            pass_shifts,
+        }
+    }
+}
